@@ -25,3 +25,116 @@ def corrupted (w : World) : Bool :=
    | none => false)
 
 end RV.Oracle.RolloutSM
+
+namespace RV.Oracle.RolloutSM
+open RV.Arith RV.Traffic RV.RolloutSM
+
+/-- sub-states in which the current step's pods have already been reported ready -/
+def podsReady (st : StepState) : Bool :=
+  st = .trafficRouting || st = .metricsAnalysis || st = .paused || st = .ready || st = .completed
+
+def inRollingNow (ro : Rollout) : Bool := ro.phase = .progressing && ro.reason = .inRolling && !ro.deleting
+
+/-- the BatchRelease reports the step's pods ready (`doCanaryUpgrade` would return done) -/
+def upgradeDoneObs (w : World) (s : Sub) : Bool :=
+  match w.wl with
+  | some wl => (doCanaryUpgrade w.ro s wl w.br).1
+  | none => false
+
+/-- does the status carry a user step-jump request? -/
+def jumpRequested (ro : Rollout) (s : Sub) : Bool :=
+  let n : Int := ro.steps.length
+  decide (s.nextIdx ≠ nextBatchIndex n s.curIdx ∧ s.nextIdx > 0 ∧ s.nextIdx ≤ n)
+
+/-- **C03.ii** — `StepTrafficRouting` of a step is entered only after that step's pods were reported
+    ready: from `StepUpgrade` when the BatchRelease says so, or by a jump / plan change to a step
+    with the same replicas taken from a sub-state in which the current step's pods are ready. -/
+def enterRoutingGated (w : World) (r : StepResult) : Bool :=
+  match w.ro.sub, r.w.ro.sub with
+  | some s, some s' =>
+    if inRollingNow w.ro ∧ r.w.ro.reason = .inRolling ∧ s'.state = .trafficRouting ∧
+       (s.state ≠ .trafficRouting ∨ s'.curIdx ≠ s.curIdx) then
+      ((s.state = .upgrade || s.state = .init) && decide (s'.curIdx = s.curIdx) && upgradeDoneObs w { s with nextIdx := s'.nextIdx }) ||
+      podsReady s.state
+    else true
+  | _, _ => true
+
+/-- **C02.i** — the step index changes only (a) by one, from `StepReady`, to the natural next step,
+    or (b) on an explicit user request: step jump, plan edit, rollback-in-batches, new release. -/
+def advanceGated (w : World) (r : StepResult) : Bool :=
+  match w.ro.sub, r.w.ro.sub, w.wl with
+  | some s, some s', some wl =>
+    let n : Int := w.ro.steps.length
+    if inRollingNow w.ro ∧ r.w.ro.reason = .inRolling ∧ s'.curIdx ≠ s.curIdx then
+      (s.state = .ready && decide (s'.curIdx = s.curIdx + 1) && decide (s.curIdx < n) && !jumpRequested w.ro s) ||
+      jumpRequested w.ro s ||
+      s.hash = .differs ||
+      (wl.inRollback && decide (wl.canaryRev ≠ s.canaryRev))
+    else true
+  | _, _, _ => true
+
+/-- **C02.iii** — while `spec.strategy.paused` is set, a reconcile of an InRolling rollout changes
+    nothing but the Progressing reason (unless the workload was rolled back, which is handled first). -/
+def pausedNoProgress (w : World) (r : StepResult) : Bool :=
+  match w.wl with
+  | some wl =>
+    if inRollingNow w.ro ∧ w.ro.paused ∧ wl.consistent ∧ ¬ wl.inRollback ∧ ¬ w.ro.disabled then
+      r.w.br == w.br && r.w.net == w.net && r.w.wl == w.wl && r.writes.isEmpty &&
+      (match w.ro.sub, r.w.ro.sub with
+       | some s, some s' => s'.curIdx == s.curIdx && s'.state == s.state
+       | none, none => true
+       | _, _ => false)
+    else true
+  | none => true
+
+/-- **C02.i** — `StepReady` is reached only from `StepPaused` with the pause satisfied, or on a plan edit. -/
+def readyGated (w : World) (r : StepResult) : Bool :=
+  match w.ro.sub, r.w.ro.sub with
+  | some s, some s' =>
+    if inRollingNow w.ro ∧ r.w.ro.reason = .inRolling ∧ s'.state = .ready ∧ s.state ≠ .ready ∧ s'.curIdx = s.curIdx then
+      s.state = .paused || s.hash = .differs
+    else true
+  | _, _ => true
+
+/-- **C18 (Rollout)** — the Rollout's own finalizer is removed only while it is being deleted and its
+    Terminating condition says Completed; and that reason is set only when the clean-up sequence
+    reached END (or there was nothing to clean up). -/
+def finalizerGuard (w : World) (r : StepResult) : Bool :=
+  (if r.roGone ∨ (w.ro.hasFinalizer ∧ ¬ r.w.ro.hasFinalizer) then w.ro.deleting && w.ro.term = .completed else true) &&
+  (if r.w.ro.term = .completed ∧ w.ro.term ≠ .completed then
+     (match r.w.ro.sub with
+      | none => true
+      | some s' => s'.finStep = .end_)
+   else true)
+
+/-- **C10** — a rollback of the workload observed while rolling is dispatched before everything
+    else (pause, plan change, normal progress): the reason becomes Cancelling and nothing is written. -/
+def rollbackFirst (w : World) (r : StepResult) : Bool :=
+  match w.ro.sub, w.wl with
+  | some s, some wl =>
+    if inRollingNow w.ro ∧ wl.consistent ∧ wl.inRollback ∧ wl.canaryRev ≠ s.canaryRev ∧ ¬ (¬ w.ro.hasTraffic ∧ w.ro.rollbackInBatch) then
+      r.w.ro.reason = .cancelling && r.w.br == w.br && r.w.net == w.net
+    else true
+  | _, _ => true
+
+/-- **C10** — a newer revision during a blue-green release is refused: nothing changes. -/
+def blueGreenRefusesContinuous (w : World) (r : StepResult) : Bool :=
+  match w.ro.sub, w.wl with
+  | some s, some wl =>
+    if inRollingNow w.ro ∧ wl.consistent ∧ ¬ wl.inRollback ∧ ¬ w.ro.paused ∧ w.ro.style = .blueGreen ∧
+       s.canaryRev ≠ "" ∧ wl.canaryRev ≠ s.canaryRev then
+      r.w.br == w.br && r.w.net == w.net && r.w.ro.reason = .inRolling &&
+      (match r.w.ro.sub with | some s' => s'.curIdx == s.curIdx && s'.state == s.state | none => false)
+    else true
+  | _, _ => true
+
+def stepOracles (w : World) (r : StepResult) : List (String × Bool) :=
+  [("C03.enter_routing_gated", enterRoutingGated w r),
+   ("C02.advance_gated", advanceGated w r),
+   ("C02.paused_no_progress", pausedNoProgress w r),
+   ("C02.ready_gated", readyGated w r),
+   ("C18.rollout_finalizer_guard", finalizerGuard w r),
+   ("C10.rollback_first", rollbackFirst w r),
+   ("C10.bluegreen_refuses_continuous", blueGreenRefusesContinuous w r)]
+
+end RV.Oracle.RolloutSM
